@@ -128,13 +128,21 @@ Definition sf_ran_after_failure (c : case) : bool :=
 
 Inductive entry_status := EGood | ETruncated | EBad.
 
-(* does [env] export [e] as KEY=path with the file holding the projected value (in [files])? *)
+(* does [env] export [e] as KEY=path with the file holding the projected value (in [files])?  When several
+   members of [env] define KEY (a key that is also an environment variable, or a name of the base environment)
+   the LAST one is what the command sees (os/exec keeps the last definition of a name), so that one must be
+   the path. *)
+Definition strip_key (k s : string) : string := sdrop (String.length (k +++ "=")) s.
+
 Definition entry_status_in (c : case) (env : list string) (files : fmap) (e : pentry) : entry_status :=
-  let cands := filter (fun s => sprefix (pe_key e +++ "=") s) env in
-  if existsb (fun s => opt_str_eqb (lookup (after_eq s) files) (Some (pe_val e))) cands then EGood
-  else if existsb (fun s => opt_str_eqb (lookup (after_eq s) files) (Some (partial (pe_val e)))
-                            && close_faulted c (after_eq s)) cands then ETruncated
-  else EBad.
+  match rev (filter (fun s => sprefix (pe_key e +++ "=") s) env) with
+  | [] => EBad
+  | s :: _ =>
+      let p := strip_key (pe_key e) s in
+      if opt_str_eqb (lookup p files) (Some (pe_val e)) then EGood
+      else if opt_str_eqb (lookup p files) (Some (partial (pe_val e))) && close_faulted c p then ETruncated
+      else EBad
+  end.
 
 Definition statuses (c : case) : list entry_status :=
   let fes := projection (rc_files (c_cfg c)) in
